@@ -7,7 +7,7 @@
 (*   read    res                                                                              *)
 (*   back    what + the projected read-back value(s) for that item                            *)
 (* Expected values come from SolutionCodec!ReadBack / SchemaRule, never from the harness.     *)
-EXTENDS SolutionCodec, IOUtils
+EXTENDS SolutionCodec, SolutionFile, IOUtils
 Traces == ndJsonDeserialize(IOEnv.TRACE_FILE)
 
 VARIABLES tid, l, err
@@ -63,6 +63,20 @@ Back(e, sol) ==
             IF e.date = Same(rb.date, sol.date, "equal") THEN "" ELSE "C14.Date"
        [] OTHER -> "machinery/unknown-item"
 
+(* file-history traces (SolutionFile.tla): every event carries the file state observed before it (`pre`: which  *)
+(* document's dump() the file's bytes equal - "None" no file, "other" none of them - and its size), so the check is  *)
+(* per event; after a rejected write the next event starts from the logged state                                     *)
+AsFile(p) == [doc |-> p.doc, len |-> p.len, tail |-> 0]
+FileClause(e) ==
+  CASE e.op = "fwrite" ->
+         LET x == FileWrite(AsFile(e.pre), e.doc, e.len, e.ow = 1) IN
+         IF e.res # x.res THEN "C14.File/result"
+         ELSE IF e.post.doc # x.file.doc \/ e.post.len # Size(x.file) THEN "C14.File/content" ELSE ""
+    [] e.op = "fread" ->
+         IF e.pre.doc = "other" THEN ""                 \* already reported at the write that left it so
+         ELSE IF e.res # FileReads(AsFile(e.pre)) THEN "C14.File/read" ELSE ""
+    [] OTHER -> "machinery/unknown-op"
+
 Clause(e, sol) ==      \* sol = descriptor of the trace (logged once, in its first event)
   CASE e.op = "write" ->
          IF DriverRule(e) # "" THEN DriverRule(e)
@@ -80,7 +94,9 @@ Clause(e, sol) ==      \* sol = descriptor of the trace (logged once, in its fir
 TInit == tid \in 1..Len(Traces) /\ l = 1 /\ err = 0
 TStep == /\ l <= Len(Traces[tid].ev)
          /\ LET e == Traces[tid].ev[l]
-                c == IF Traces[tid].ev[1].op # "write" THEN "machinery/no-descriptor" ELSE Clause(e, Traces[tid].ev[1].sol)
+                c == IF Traces[tid].ev[1].op \in {"fwrite", "fread"} THEN FileClause(e)
+                     ELSE IF Traces[tid].ev[1].op # "write" THEN "machinery/no-descriptor"
+                     ELSE Clause(e, Traces[tid].ev[1].sol)
             IN err' = IF c = "" THEN err ELSE IF PrintT(<<"REJECT", tid, l, c>>) THEN err + 1 ELSE err
          /\ l' = l + 1 /\ UNCHANGED tid
 TSpec == TInit /\ [][TStep]_tvars
